@@ -241,10 +241,12 @@ type spec struct {
 	trivial bool
 	hasLock bool // transitively contains a lock op, a spawn or a wait
 
-	retTag    []tag  // per result; region -1 = fresh object created by the callee, k>0 = alias of slot k-1
-	publishes []bool // per slot
-	nslots    int
-	pos       token.Pos
+	retTag     []tag  // per result; region -1 = fresh object created by the callee, k>0 = alias of slot k-1
+	publishes  []bool // per slot
+	assumedPub []bool // summary assumed for direct self calls while translating
+	selfCalled bool
+	nslots     int
+	pos        token.Pos
 
 	index   int
 	callees []*spec
